@@ -1333,6 +1333,34 @@ def row_values(a, b, layout):
     return o
 
 
+def row_values_grown(a, b, layout):
+    """the rows of a FrameGO whose second column was added after construction (layout 0: __setitem__, 1: extend):
+    the incrementally maintained row dtype must describe both columns"""
+    import static_frame as sf
+    arr_a, arr_b = base_array(a), base_array(b, variant=1)
+    f = sf.FrameGO(sf.TypeBlocks.from_blocks([arr_a]), index=IDX, columns=('A',), own_data=True)
+    if layout == 1:
+        f.extend(sf.Frame(sf.TypeBlocks.from_blocks([arr_b]), index=IDX, columns=('B',), own_data=True))
+    else:
+        f['B'] = arr_b
+    av, bv = cells(arr_a), cells(arr_b)
+    o = Obs()
+    v = f.values
+    for i in range(3):
+        o.col([av[i], bv[i]], v[i], f'FrameGO .values row {i}')
+    o.col([av[1], bv[1]], f.iloc[1].values, 'FrameGO iloc[1] row Series')
+    for i, row in enumerate(f.iter_array(axis=1)):
+        o.col([av[i], bv[i]], row, f'FrameGO iter_array(axis=1) row {i}')
+    for i, row in enumerate(f.iter_tuple(axis=1, constructor=tuple)):
+        held = np.empty(2, dtype=object)
+        held[0], held[1] = row[0], row[1]
+        o.col([av[i], bv[i]], held, f'FrameGO iter_tuple(axis=1) row {i}')
+    o.col(bv, f['B'].values, 'FrameGO column B')
+    o.keep(arr_a.dtype, f['A'].dtype, 'A')
+    o.keep(arr_b.dtype, f['B'].dtype, 'B')
+    return o
+
+
 def f_bloc_assign(a, b, layout):
     """assign.bloc with a Frame value and with a coordinate Series (as produced by Frame.bloc)"""
     import static_frame as sf
@@ -1521,7 +1549,7 @@ ARRAY_SITES = {
     's_assign_array': s_assign_array, 'f_assign_array': f_assign_array, 'f_assign_2d': f_assign_2d,
     's_fillna_series': s_fillna_series, 'f_fillna_frame': f_fillna_frame, 's_overlay': s_overlay, 'f_overlay': f_overlay,
     's_insert': s_insert, 'f_insert': f_insert, 'from_records': from_records, 'from_items': from_items,
-    'index_values': index_values, 'row_values': row_values,
+    'index_values': index_values, 'row_values': row_values, 'row_values_grown': row_values_grown,
 }
 
 
